@@ -341,7 +341,7 @@ int main(int argc, char **argv) {
               for (int i = 0; i < K; ++i)
                 for (int j = 0; j < M; ++j) {
                   // integer mixing of (i, j, a, b): values spread over 0..1000 without linear structure
-                  uint32_t h = (uint32_t)(i * 73856093) ^ (uint32_t)(j * 19349663) ^ (uint32_t)(a * 83492791) ^ (uint32_t)(b * 2654435761u);
+                  uint32_t h = ((uint32_t)i * 73856093u) ^ ((uint32_t)j * 19349663u) ^ ((uint32_t)a * 83492791u) ^ ((uint32_t)b * 2654435761u);
                   h ^= h >> 15; h *= 2246822519u; h ^= h >> 13;
                   in.cost.push_back((int)(h % 1001));
                 }
